@@ -148,6 +148,77 @@ def authCredJsonToJson (c : AuthCredJson) : Json :=
     ("user_handle", optBytesToJson c.userHandle), ("authenticator_attachment", optStrToJson c.attachment),
     ("type", "public-key")]
 
+def optJ {α} (f : α → Json) : Option α → Json
+  | none => Json.null
+  | some a => f a
+
+def descriptorToJ (d : Descriptor) : Json :=
+  Json.mkObj [("id", bytesToJson d.id), ("transports", optJ (fun l => Json.arr (l.map Json.str).toArray) d.transports)]
+
+def authSelToJ (s : AuthSel) : Json :=
+  Json.mkObj [("authenticator_attachment", optJ Json.str s.attachment), ("resident_key", optJ Json.str s.residentKey),
+    ("require_resident_key", optJ Json.bool s.requireResidentKey), ("user_verification", optJ Json.str s.userVerification)]
+
+def regOptionsToJ (o : RegOptions) : Json :=
+  Json.mkObj [("rp_id", optJ Json.str o.rpId), ("rp_name", o.rpName), ("user_id", bytesToJson o.userId),
+    ("user_name", o.userName), ("user_display_name", o.userDisplayName), ("challenge", bytesToJson o.challenge),
+    ("params", Json.arr (o.params.map (fun p => Json.arr #[Json.str p.1, intToJson p.2])).toArray),
+    ("timeout", optJ intToJson o.timeout),
+    ("exclude_credentials", optJ (fun l => Json.arr (l.map descriptorToJ).toArray) o.excludeCredentials),
+    ("authenticator_selection", optJ authSelToJ o.authenticatorSelection),
+    ("hints", optJ (fun l => Json.arr (l.map Json.str).toArray) o.hints), ("attestation", o.attestation)]
+
+def authOptionsToJ (o : AuthOptions) : Json :=
+  Json.mkObj [("challenge", bytesToJson o.challenge), ("timeout", optJ intToJson o.timeout), ("rp_id", optJ Json.str o.rpId),
+    ("allow_credentials", optJ (fun l => Json.arr (l.map descriptorToJ).toArray) o.allowCredentials),
+    ("user_verification", optJ Json.str o.userVerification)]
+
+def strListOfJson (j : Json) : P (List String) := do (← j.getArr?).toList.mapM (·.getStr?)
+
+def descriptorOfJ (j : Json) : P Descriptor := do
+  pure { id := ← bytesField j "id", transports := ← optField strListOfJson j "transports" }
+
+def authSelOfJ (j : Json) : P AuthSel := do
+  pure { attachment := ← optField (·.getStr?) j "authenticator_attachment",
+         residentKey := ← optField (·.getStr?) j "resident_key",
+         requireResidentKey := ← optField (·.getBool?) j "require_resident_key",
+         userVerification := ← optField (·.getStr?) j "user_verification" }
+
+def descListOfJ (j : Json) : P (List Descriptor) := do (← j.getArr?).toList.mapM descriptorOfJ
+
+def regOptionsOfJ (j : Json) : P RegOptions := do
+  let ps ← arrField j "params"
+  pure { rpId := ← optField (·.getStr?) j "rp_id", rpName := ← strField j "rp_name", userId := ← bytesField j "user_id",
+         userName := ← strField j "user_name", userDisplayName := ← strField j "user_display_name",
+         challenge := ← bytesField j "challenge",
+         params := ← ps.toList.mapM (fun p => do
+           let a ← p.getArr?
+           if h : a.size = 2 then pure ((← a[0].getStr?), (← intOfJson a[1])) else throw "bad param"),
+         timeout := ← optField intOfJson j "timeout",
+         excludeCredentials := ← optField descListOfJ j "exclude_credentials",
+         authenticatorSelection := ← optField authSelOfJ j "authenticator_selection",
+         hints := ← optField strListOfJson j "hints", attestation := ← strField j "attestation" }
+
+def authOptionsOfJ (j : Json) : P AuthOptions := do
+  pure { challenge := ← bytesField j "challenge", timeout := ← optField intOfJson j "timeout",
+         rpId := ← optField (·.getStr?) j "rp_id", allowCredentials := ← optField descListOfJ j "allow_credentials",
+         userVerification := ← optField (·.getStr?) j "user_verification" }
+
+def genRegArgsOfJ (j : Json) : P GenRegArgs := do
+  pure { rpId := ← strField j "rp_id", rpName := ← strField j "rp_name", userName := ← strField j "user_name",
+         userId := ← optField bytesOfJson j "user_id", userDisplayName := ← optField (·.getStr?) j "user_display_name",
+         challenge := ← optField bytesOfJson j "challenge", timeout := ← intField j "timeout",
+         attestation := ← strField j "attestation",
+         authenticatorSelection := ← optField authSelOfJ j "authenticator_selection",
+         excludeCredentials := ← optField descListOfJ j "exclude_credentials",
+         supportedAlgs := ← optField (fun v => do (← v.getArr?).toList.mapM intOfJson) j "supported_algs",
+         hints := ← optField strListOfJson j "hints" }
+
+def genAuthArgsOfJ (j : Json) : P GenAuthArgs := do
+  pure { rpId := ← strField j "rp_id", challenge := ← optField bytesOfJson j "challenge", timeout := ← intField j "timeout",
+         allowCredentials := ← optField descListOfJ j "allow_credentials",
+         userVerification := ← strField j "user_verification" }
+
 partial def runOp (hin hout : IO.FS.Stream) (j : Json) : IO Json := do
   let op ← liftP (strField j "op")
   match op with
@@ -228,6 +299,25 @@ partial def runOp (hin hout : IO.FS.Stream) (j : Json) : IO Json := do
       let v ← liftP (do jvalOfJson (← field j "value"))
       if kind == "reg" then pure (outcomeToJson regCredJsonToJson (parseRegCredJson v))
       else pure (outcomeToJson authCredJsonToJson (parseAuthCredJson v))
+  | "gen_reg_options" => do
+    let a ← liftP (do genRegArgsOfJ (← field j "args"))
+    pure (outcomeToJson regOptionsToJ (← runMIO hin hout (generateRegOptions a)))
+  | "gen_auth_options" => do
+    let a ← liftP (do genAuthArgsOfJ (← field j "args"))
+    pure (outcomeToJson authOptionsToJ (← runMIO hin hout (generateAuthOptions a)))
+  | "options_to_json" => do
+    let kind ← liftP (strField j "kind")
+    if kind == "reg" then do
+      let o ← liftP (do regOptionsOfJ (← field j "options"))
+      pure (Json.mkObj [("k", "accept"), ("record", jvalToJson (regOptionsToJson o))])
+    else do
+      let o ← liftP (do authOptionsOfJ (← field j "options"))
+      pure (Json.mkObj [("k", "accept"), ("record", jvalToJson (authOptionsToJson o))])
+  | "parse_options_json" => do
+    let kind ← liftP (strField j "kind")
+    let v ← liftP (do jvalOfJson (← field j "value"))
+    if kind == "reg" then pure (outcomeToJson regOptionsToJ (parseRegOptionsJson v))
+    else pure (outcomeToJson authOptionsToJ (parseAuthOptionsJson v))
   | "verify_auth" => do
     let c ← liftP (do authCredOfJson (← field j "cred"))
     let e ← liftP (do authExpectOfJson (← field j "expect"))
